@@ -267,23 +267,36 @@ class AppCfgMgr:
             for filename in glob.glob(os.path.join(self.tm_env.cache_dir, '*'))
         }
 
+        # Cleanup links are named after the instance (monitor, below) or after
+        # the container (_terminate): go by what they point to.
+        in_cleanup = {
+            os.path.basename(self._resolve_running_link(linkname))
+            for linkname in glob.glob(os.path.join(self.tm_env.cleanup_dir,
+                                                   '*'))
+            if os.path.islink(linkname)
+        }
+
         for container in configured:
             appname = appcfg.app_name(container)
-            if os.path.exists(os.path.join(self.tm_env.running_dir, appname)):
+            running = os.path.basename(self._resolve_running_link(
+                os.path.join(self.tm_env.running_dir, appname)
+            ))
+            if running == container:
                 # App already running.. check if in cache.
                 # No need to check if needs cleanup as that is handled
-                if appname not in cached or cached[appname] != container:
+                if cached.get(appname) != container:
+                    # Keep the cache entry (if any): it is another generation
+                    # of the instance and still has to be configured.
                     self._terminate(appname)
                 else:
                     _LOGGER.info('Ignoring %s as it is running', appname)
+                    cached.pop(appname, None)
 
-                cached.pop(appname, None)
-
-            elif os.path.exists(os.path.join(self.tm_env.cleanup_dir,
-                                             appname)):
+            elif container in in_cleanup:
                 # Already in the process of being cleaned up
-                _LOGGER.info('Ignoring %s as it is in cleanup', appname)
-                cached.pop(appname, None)
+                _LOGGER.info('Ignoring %s as it is in cleanup', container)
+                if cached.get(appname) == container:
+                    cached.pop(appname, None)
 
             else:
                 needs_cleanup = True
@@ -303,8 +316,14 @@ class AppCfgMgr:
                     cached.pop(appname, None)
 
                 if needs_cleanup:
+                    cleanup_link = os.path.join(self.tm_env.cleanup_dir,
+                                                appname)
+                    if os.path.lexists(cleanup_link):
+                        # Taken by another generation of the instance.
+                        cleanup_link = os.path.join(self.tm_env.cleanup_dir,
+                                                    container)
                     fs.symlink_safe(
-                        os.path.join(self.tm_env.cleanup_dir, appname),
+                        cleanup_link,
                         os.path.join(self.tm_env.apps_dir, container)
                     )
                     _LOGGER.debug('Removed %r', appname)
